@@ -86,6 +86,7 @@ func c09Files() Files {
 	f["h4_a.vuego"] = `<p v-if="n > 11">{{ user.name }}</p><i>{{ user.tags[0] }} {{ m.k1 }}</i>`
 	f["h4_b.vuego"] = `<p v-if="n > 12">{{ user.name }}</p><i>{{ user.tags[1] }} {{ m.k2 }}</i>`
 	f["h6_page.vuego"] = `<section>ORIGINAL<template include="c_card.vuego" heading="h" :c="canary"></template></section>`
+	f["h11_page.vuego"] = "---\ntitle: Dashboard\nlist: [1, 2]\n---\n" + `<template :greeting="'Hello ' + canary"></template><h1>{{ title }}</h1><i v-for="x in list">{{ x }}{{ canary }}</i><p>{{ greeting }}</p><template :title="canary"></template><b>{{ title }}</b>`
 	f["h4_c.vuego"] = `<p v-if="n > 13">{{ user.name }}</p><i>{{ m.k3 }} {{ objs[0].name }}</i>`
 	return f
 }
@@ -223,13 +224,27 @@ func c09Build(driver string, threads int) [][]c09Call {
 			out[i] = []c09Call{mk("wrap", func(b *bytes.Buffer) error { return t.Load("p_wrap.vuego").Fill(tdata(i)).Render(bg, b) }),
 				mk("inconce", func(b *bytes.Buffer) error { return t.Load("p_inconce.vuego").Fill(tdata(i)).Render(bg, b) })}
 		}
+	case "H11-front-matter-page-with-template-variables-vue":
+		v := vuego.NewVue(files.FS())
+		var warm bytes.Buffer
+		_ = v.Render(&warm, "h11_page.vuego", c09Data())
+		for i := range out {
+			i := i
+			out[i] = []c09Call{mk("fmvars", func(b *bytes.Buffer) error { return v.Render(b, "h11_page.vuego", tdata(i)) })}
+		}
+	case "H12-front-matter-page-with-template-variables-load":
+		t := vuego.NewFS(files.FS())
+		for i := range out {
+			i := i
+			out[i] = []c09Call{mk("fmvars", func(b *bytes.Buffer) error { return t.Load("h11_page.vuego").Fill(tdata(i)).Render(bg, b) })}
+		}
 	default:
 		panic("unknown driver " + driver)
 	}
 	return out
 }
 
-var c09Drivers = []string{"H1-cold-cache-same-file", "H2-shared-caller-map", "H3-v-once-warm", "H4-unseen-paths-and-expressions", "H4b-path-cache-at-limit", "H5-include-slots-layout-filters", "H6-files-edited-underneath", "H7-renderstring-on-new", "H8-funcs-and-errors", "H9-components-with-v-once-and-wrappers", "H10-same-page-different-data"}
+var c09Drivers = []string{"H1-cold-cache-same-file", "H2-shared-caller-map", "H3-v-once-warm", "H4-unseen-paths-and-expressions", "H4b-path-cache-at-limit", "H5-include-slots-layout-filters", "H6-files-edited-underneath", "H7-renderstring-on-new", "H8-funcs-and-errors", "H9-components-with-v-once-and-wrappers", "H10-same-page-different-data", "H11-front-matter-page-with-template-variables-vue", "H12-front-matter-page-with-template-variables-load"}
 
 // c09Reset puts every piece of process-global state the engine has into its initial state.
 func c09Reset(driver string) {
@@ -584,7 +599,7 @@ func init() {
 		WorkerEnv: func(runDir string) []string {
 			return []string{"GORACE=log_path=" + runDir + "/race halt_on_error=0 exitcode=0 history_size=2", "VERIF_RACE_LOG=" + runDir + "/race"}
 		},
-		Rule: "11 drivers (cold cache on the same file; shared caller map through Vue.Render and Load().Fill; v-once with a warm cache; previously unseen paths and expressions, also with the global path cache two entries below its limit; include+slots+layout+filters+shorthand; page and component edited underneath by an editor thread; RenderString on New(); registered functions and failing renders), each with 2 (thorough: also 3) real goroutines on one shared engine. " +
+		Rule: "13 drivers (cold cache on the same file; shared caller map through Vue.Render and Load().Fill; v-once with a warm cache; previously unseen paths and expressions, also with the global path cache two entries below its limit; include+slots+layout+filters+shorthand; page and component edited underneath by an editor thread; RenderString on New(); registered functions and failing renders; components with v-once and wrapper components; one page with different data per thread; a front-matter page that sets per-request variables with top-level <template :var> through Vue.Render and through Load().Fill().Render), each with 2 (thorough: also 3) real goroutines on one shared engine. " +
 			"Every schedule with at most b preemptions is executed under a controlled scheduler that owns every Lock/RLock/Unlock/Pool/Once operation of the vuego module (and file-system opens in the edit driver); per schedule: every call's bytes and error equal one of its solo results, runtime.RaceErrors() did not increase (race detector in the loop, hand-offs invisible to it), no deadlock, no panic. One recorded schedule per driver is replayed and must reproduce exactly. A free-running -race pass of the same bodies complements it. states = schedules executed, transitions = scheduling points; non-trivial = all",
 		Bounds:      map[string]string{"quick": "2 threads, preemption bound 2", "thorough": "2 threads bound 3; 3 threads bound 2"},
 		Assumptions: []string{"sequentially consistent interleavings at synchronisation operations; unsynchronised accesses are caught by the race detector on each explored schedule instead", "cmd/vinstr rewrites every use of package sync in the vuego module (5 files today); other blocking primitives (channels, atomics) are not used by the module"},
